@@ -1,14 +1,19 @@
 package internal_planner
 
 import (
+	"encoding/binary"
 	"github.com/go-faster/city"
 	"unsafe"
 )
 
 func fingerprint(labels map[string]string) uint64 {
 	descr := [3]uint64{0, 0, 1}
+	var klen [8]byte
 	for k, v := range labels {
-		a := k + v
+		// the length of the name goes first, so that the hashed text determines the pair:
+		// {ab:"c"} and {a:"bc"} must not get the same fingerprint
+		binary.LittleEndian.PutUint64(klen[:], uint64(len(k)))
+		a := string(klen[:]) + k + v
 		descr[0] += city.CH64([]byte(a))
 		descr[1] ^= city.CH64([]byte(a))
 		descr[2] *= 1779033703 + 2*city.CH64([]byte(a))
